@@ -36,19 +36,44 @@ fn call<T>(run: &mut Runner, tap: &Tap, marks: &mut Vec<Mark>, what: &'static st
     r
 }
 
+/// what a fresh process finds in the image: the tables, and whether the file is structurally sound
+fn sound(e: &mut crate::eng::Eng) -> Value {
+    match e.with(|db| {
+        let a = axmosdb::verif::audit::audit(db);
+        let p: Vec<String> = crate::audit::problems(&a).into_iter().filter(|p| !p.contains("leaked") && !p.contains("first_free") && !p.contains("last_free")).take(4).collect();
+        crate::eng::Out::Info(json!(p))
+    }) {
+        crate::eng::Out::Info(v) => v,
+        o => json!([format!("audit did not finish: {}", o.json())]),
+    }
+}
+
 pub fn child(a: &Args) -> i32 {
     crate::eng::install_panic_hook();
     let db = PathBuf::from(a.str("db", ""));
     let tables: Vec<String> = a.str("tables", "").split(',').filter(|s| !s.is_empty()).map(String::from).collect();
+    let nested_n = a.num("nested", 0) as usize;
     let mut e = crate::eng::Eng::new();
     e.timeout = std::time::Duration::from_secs(a.num("timeout", 30));
     let read = |e: &mut crate::eng::Eng| -> Vec<Value> {
         tables.iter().map(|t| { let o = e.exec(0, &format!("SELECT * FROM {t}")); json!({"name": t, "out": crate::runner::out_json(&o)}) }).collect()
     };
+    // the image itself, and (nested crash points, C08) every write recovery makes while the database opens
+    let mut image: HashMap<String, Vec<u8>> = HashMap::new();
+    if nested_n > 0 {
+        for f in std::fs::read_dir(db.parent().unwrap()).unwrap().flatten() {
+            if f.path().is_file() { image.insert(f.file_name().to_string_lossy().into_owned(), std::fs::read(f.path()).unwrap()); }
+        }
+    }
+    let tap = if nested_n > 0 { Some(install_tap()) } else { None };
     let open = e.open(&db, default_cfg());
+    let rec_log: Vec<IoEvent> = tap.as_ref().map(|t| t.lock().unwrap().clone()).unwrap_or_default();
+    axmosdb::verif::set_io_sink(None);
     let mut out = json!({"open": open.json()});
     if open.is_ok() {
-        out["tables"] = json!(read(&mut e));
+        let first = read(&mut e);
+        out["tables"] = json!(first);
+        out["sound"] = sound(&mut e);
         // opening an already recovered database changes nothing; the database is usable
         let _ = e.close();
         let again = e.open(&db, default_cfg());
@@ -61,6 +86,54 @@ pub fn child(a: &Args) -> i32 {
             out["probe"] = json!([p1.json(), p2.json(), crate::runner::out_json(&p3)]);
         }
         let _ = e.close();
+        // C08, depth 2: the process dies again while recovery runs - after the j-th write of the recovery above - and
+        // a third process opens what is left.  It must find the same contents as the uninterrupted recovery did.
+        let changing: Vec<usize> = (1..=rec_log.len()).filter(|k| !matches!(rec_log[k - 1], IoEvent::Sync { .. })).collect();
+        let mut pts: Vec<usize> = vec![];
+        if changing.len() <= nested_n { pts = changing.clone(); } else {
+            // the points around truncations and syncs first, the rest evenly spread
+            for k in 1..=rec_log.len() { if matches!(rec_log[k - 1], IoEvent::SetLen { .. }) { pts.extend([k - 1, k]); } }
+            for (i, ev) in rec_log.iter().enumerate() { if matches!(ev, IoEvent::Sync { .. }) { pts.push(i); } }
+            pts.retain(|k| changing.contains(k)); pts.sort(); pts.dedup(); pts.truncate(nested_n / 2);
+            let want = nested_n - pts.len();
+            for i in 0..want { pts.push(changing[(i * changing.len()) / want]); }
+            pts.sort(); pts.dedup();
+        }
+        // recovery ends with a checkpoint: from its first page write until the log is truncated a crash point lies inside
+        // Pager::flush (recorded finding CheckpointNotAtomic); `inflush` tells the specification so
+        let is_db = |e: &IoEvent| matches!(e, IoEvent::Write { path, .. } if path.file_name().map(|n| n == "db.axm").unwrap_or(false));
+        let first_page_write = rec_log.iter().position(|e| is_db(e)).map(|i| i + 1);
+        let truncation = rec_log.iter().position(|e| matches!(e, IoEvent::SetLen { .. })).map(|i| i + 1);
+        let mut nested: Vec<Value> = vec![];
+        let ndir = db.parent().unwrap().join("nest");
+        let mut files = image.clone();
+        let mut applied = 0;
+        for k in pts {
+            while applied < k { apply(&mut files, &rec_log[applied]); applied += 1; }
+            write_image(&files, &ndir);
+            let mut e2 = crate::eng::Eng::new();
+            e2.timeout = std::time::Duration::from_secs(30);
+            let o = e2.open(&ndir.join("db.axm"), default_cfg());
+            let mut n = json!({"k": k, "of": rec_log.len(), "open": o.json(), "same": false, "tables": [], "sound": [],
+                "inflush": first_page_write.map(|f| k >= f).unwrap_or(false) && truncation.map(|t| k < t).unwrap_or(true)});
+            if o.is_ok() {
+                let t = read(&mut e2);
+                n["sound"] = sound(&mut e2);
+                if json!(t) == json!(first) { n["same"] = json!(true); } else { n["tables"] = json!(t); }
+                let _ = e2.close();
+            }
+            nested.push(n);
+        }
+        let _ = std::fs::remove_dir_all(&ndir);
+        out["nested"] = json!(nested);
+        out["recovery_writes"] = json!(rec_log.len());
+        let base = |p: &PathBuf| p.file_name().unwrap().to_string_lossy().into_owned();
+        out["recovery_io"] = json!(rec_log.iter().take(60).map(|e| match e {
+            IoEvent::Create { path } => format!("C {}", base(path)),
+            IoEvent::Write { path, offset, bytes } => format!("W {}@{}+{}", base(path), offset, bytes.len()),
+            IoEvent::SetLen { path, len } => format!("T {}={}", base(path), len),
+            IoEvent::Sync { path } => format!("S {}", base(path)),
+        }).collect::<Vec<_>>());
     }
     println!("{}", out);
     0
@@ -92,6 +165,7 @@ pub fn main(a: &Args) -> i32 {
     let seed = a.num("seed", 1);
     let histories = a.num("segments", 4);
     let max_points = a.num("points", 120) as usize;
+    let nested_n = a.num("nested", 4);
     let unsafe_ckpt = a.flag("unsafe-checkpoints"); // witness mode for the checkpoint findings
     let dir = PathBuf::from(a.str("dir", "/verif/work/crash"));
     let out = PathBuf::from(a.str("out", "/verif/work/crash-trace.ndjson"));
@@ -100,6 +174,7 @@ pub fn main(a: &Args) -> i32 {
     let mut r = util::rng(seed, 5);
     let tap = install_tap();
     let (mut images, mut nontrivial, mut hung, mut stmts) = (0usize, 0usize, false, 0usize);
+    let (mut nested_images, mut recovering) = (0usize, 0usize);
     for h in 0..histories {
         tap.lock().unwrap().clear();
         let mut run = Runner::new(dir.join("live"), Trace::create(&dir.join("scratch.ndjson")));
@@ -232,7 +307,7 @@ pub fn main(a: &Args) -> i32 {
             hs.push(std::thread::spawn(move || loop {
                 let job = jobs.lock().unwrap().pop();
                 let Some((k, d)) = job else { break };
-                let mut ch = std::process::Command::new(&exe).args(["reopen-child", "--db", d.join("db.axm").to_str().unwrap(), "--tables", &names.join(",")])
+                let mut ch = std::process::Command::new(&exe).args(["reopen-child", "--db", d.join("db.axm").to_str().unwrap(), "--tables", &names.join(","), "--nested", &nested_n.to_string()])
                     .stdout(std::process::Stdio::piped()).stderr(std::process::Stdio::null()).spawn().expect("spawn child");
                 let t0 = std::time::Instant::now();
                 let v = loop {
@@ -274,6 +349,11 @@ pub fn main(a: &Args) -> i32 {
             ev["again_open"] = v.get("again_open").cloned().unwrap_or(json!({"k": "unit"}));
             ev["again"] = v.get("again").cloned().unwrap_or(json!([]));
             ev["probe"] = v.get("probe").cloned().unwrap_or(json!([]));
+            ev["sound"] = v.get("sound").cloned().unwrap_or(json!([]));
+            ev["nested"] = v.get("nested").cloned().unwrap_or(json!([]));
+            ev["recovery_io"] = v.get("recovery_io").cloned().unwrap_or(json!([]));
+            nested_images += ev["nested"].as_array().map(|a| a.len()).unwrap_or(0);
+            if v.get("recovery_writes").and_then(|x| x.as_u64()).unwrap_or(0) > 0 { recovering += 1; }
             by_event.entry(pos).or_default().push(ev);
         }
         for (i, e) in events.iter().enumerate() {
@@ -285,6 +365,6 @@ pub fn main(a: &Args) -> i32 {
     axmosdb::verif::set_io_sink(None);
     let n = final_trace.finish();
     let _ = std::fs::remove_dir_all(&dir);
-    println!("{}", json!({"kind": "crash", "segments": histories, "events": n, "stmts": stmts, "errors": 0, "images": images, "nontrivial": nontrivial, "hung": hung}));
+    println!("{}", json!({"kind": "crash", "segments": histories, "events": n, "stmts": stmts, "errors": 0, "images": images + nested_images, "nested_images": nested_images, "recovering_images": recovering, "nontrivial": nontrivial, "hung": hung}));
     0
 }
